@@ -387,6 +387,11 @@ class Client(BaseClient):
         )
 
         self.handshake()
+        for device in list(self.devices):
+            # a client that is started again still knows its devices: none of
+            # them is seen for the first time, so nothing else would tell the
+            # new connections which one is to carry their BLOBs
+            self.blob_handshake(device)
 
     def stop(self):
         self.control_connection_handler.close()
